@@ -20,7 +20,8 @@ META = {
         "the constant action/currency arguments of every call site, derive from grammar rule `transaction`; every line "
         "pushed to the output is produced by a trade/dividend/comment/header formatter. R4 (TAINT): text taken from the "
         "export reaches a comment line only through a line-break sanitiser inside the comment formatter (recognised "
-        "idioms: replace with a pattern containing both \\n and \\r, a chars() filter/map on those, lines()). R5: the "
+        "idioms: replace / split with a pattern containing both \\n and \\r, a chars() filter/map on those, split_whitespace; "
+        "`lines()` is not one — it leaves a lone \\r, which the grammar reads as a line break). R5: the "
         "output is sorted by a stable sort keyed by the row date. Does not decide row-order independence or chunking."),
     "trusted_base": ["str::replace/lines/chars semantics", "Vec::sort_by_key is stable", "rustc MIR + resolution",
                      "precondition of the property: symbols are alphanumeric (symbols are not sanitised)"],
@@ -612,8 +613,14 @@ def sanitised(F, b, tb, term, depth=0):
             chars = _chars_of(pat)
             if chars is not None and {10, 13} <= chars:
                 return "str::replace of a pattern containing \\n and \\r"
-        if m == "lines":
-            return "lines()"
+        # NOT `lines()`: str::lines splits at \n and \r\n only, a lone \r stays in the text — and the DSL grammar's NEWLINE
+        # accepts a lone \r, so the rest of the text would start a new DSL line (seeded change C18-s3)
+        if m in ("split_whitespace", "split_ascii_whitespace"):
+            return f"{m}() (every white-space run, line breaks included, is dropped)"
+        if m in ("split", "split_terminator") and len(x[2]) >= 2:
+            chars = _chars_of(x[2][1])
+            if chars is not None and {10, 13} <= chars:
+                return "str::split at a pattern containing \\n and \\r"
         if m in ("filter", "map", "retain", "split") and len(x[2]) >= 2:
             clo = x[2][1]
             if isinstance(clo, tuple) and clo and clo[0] == "closure" and clo[1] in F.bodies:
